@@ -50,7 +50,7 @@ def quantifier(facts, t, mapping):
         return None
     pol, call = q
     if neg:
-        return None if pol == 'all' else None
+        return None
     bind = closure_bindings(call)
     if not bind:
         return None
@@ -267,6 +267,62 @@ def mv_ignore(ctx):
                 return ('dom', orient)
         return None
     if guard is None:
+        # quantifier idiom: `if !self.vals.iter().any(|(c, _)| c > &clock) { push }`
+        for d in sorted(it.dom[pb], key=lambda x: -it.rpo.index(x)):
+            sw = it.switches.get(d)
+            if sw is None or d == pb:
+                continue
+            q = quantifier(facts, sw.discr, {})
+            flipped = False
+            if q is None:
+                # the compiler may switch on `any(..)` itself and swap the targets
+                q = quantifier(facts, ('unop', 'Not', drop_lv(sw.discr)), {})
+                flipped = q is not None
+            if q is None:
+                continue
+            xs, icb, im, pol = q
+            if not whole_iteration_over(xs, 1, (vf,)):
+                ctx.fail('push', body, 'the supersession scan does not range over every stored value', line=line)
+                return
+            seen = []
+
+            def classify_q(a, b, tt, im=im):
+                sa, sb = subst(a, im), subst(b, im)
+                for x, y, orient in ((sa, sb, 'fwd'), (sb, sa, 'rev')):
+                    py = param_path(y)
+                    if _item_clock_side(x, vf) == 1 and py and py[0] == 2 and py[1][-1:] == ('Put.clock',):
+                        seen.append(1)
+                        return ('dom', orient)
+                return None
+            truth = {}
+            for o in PARTIAL:
+                truth[o] = Evaluator(facts, classify=classify_q, assumption={'dom': o}).ev(interp(facts, icb).ret)
+            # which edge of the switch reaches the push: value of the quantifier result
+            rc0 = Reach(facts, body, Evaluator(facts))
+            on_true = None
+            for val, tb in list(sw.targets) + [('other', sw.otherwise)]:
+                if pb in rc0._reach(tb, set()):
+                    if val == 'other':
+                        on_true = [v for v, _ in sw.targets] == [0]
+                    else:
+                        on_true = bool(val)
+            if flipped and on_true is not None:
+                on_true = not on_true
+            blocked = set(o for o, v in truth.items() if (v if pol == 'none' else not v))   # outcomes for which some y blocks
+            # quantifier result is true iff no y blocks (pol none: `count==0`/`!any`; pol all: all true)
+            errs = []
+            if not seen or any(v is None for v in truth.values()) or on_true is None:
+                errs.append('the guard of the store is not a scan comparing every stored clock with the Put clock')
+            elif not on_true:
+                errs.append('the Put is stored when some existing value supersedes it and ignored otherwise')
+            else:
+                if GT not in blocked:
+                    errs.append('a Put dominated by an existing value (Gt) is still stored: a superseded write is shown')
+                if blocked - {GT}:
+                    errs.append('a Put that is not dominated (%s) is ignored' % sorted(blocked - {GT}))
+            ctx.check(not errs, 'push', body, 'Put stored iff no existing clock > Put clock (quantifier form)', errs[0] if errs else '',
+                      line=line, details={'existing clock vs put clock -> predicate': truth, 'polarity': pol})
+            return
         ctx.fail('push', body, 'the Put is stored without checking whether an existing value supersedes it', line=line)
         return
     gbb, flag = guard
